@@ -5,9 +5,9 @@ import kernel
 
 COQ_PROPS = 'props/C02.v'
 COQ_PROPS_EXTRA = ['props/C02impl.v']
-PARTIAL = ('chain rule proved for all trees over + - * / ** (positive base) atan2 (x>0) and the 16 real functions, '
+PARTIAL = ('chain rule proved for all trees over + - * / ** (positive base) atan2 (x>0 or y!=0: everywhere it is differentiable) and the 16 real functions, '
            'magnitude, mag_squared, phase, unary -/+, and the implicit-function form of the components returned by function.implicit; '
-           'atan2 on the other half planes, ** with non-positive base and convergence of the implicit root search are covered by '
+           '** with non-positive base and convergence of the implicit root search are covered by '
            'correspondence/oracle only')
 ASSUMPTIONS = ['rounding error of float arithmetic is not bounded by proof (theorems are over the reals)']
 TRUSTED = ['Coquelicot (is_derive, auto_derive) and the Coq Reals library']
@@ -28,7 +28,7 @@ def correspondence(rng, tier):
         r['mismatches'].append({'kind': 'model-vs-implementation', 'case': m, 'code': v, 'term': t[:1200]})
     r['programs'] += len(C.terms); r['steps'] += len(C.terms)
     r['distribution']['implicit_calls'] = len(C.terms)
-    r['rule'] += '; plus function.implicit calls over 21 function families (see C20) compared bit for bit with the model of Special.v'
+    r['rule'] += '; plus function.implicit calls over 34 function families (see C20) compared bit for bit with the model of Special.v'
     return r
 
 # ---------------------------------------------------------------- oracle (search only)
@@ -126,6 +126,9 @@ def search(rng, tier, broken):
             f = {'kind': 'implicit', 'family': rng.choice(['lin', 'sq', 'exp']), 'a0': rng.uniform(0.5, 4.0), 'ua': round(rng.uniform(0.05, 1), 3),
                  'lo': 0.05, 'hi': rng.uniform(2.5, 6.0), 'dep': rng.random() < 0.5}
             if f['family'] == 'exp': f['lo'] = -2.0
+            if rng.random() < 0.3:      # a root exactly at a bracket end (regression oracle of the fixed finding C20-implicit-end)
+                f = {'kind': 'implicit_end', 'family': rng.choice(['lin', 'declin', 'scaled']), 'a0': rng.choice([1.0, 3.0, rng.uniform(0.5, 4.0)]),
+                     'ua': round(rng.uniform(0.05, 1), 3), 'end': rng.choice(['lo', 'hi']), 'width': rng.choice([2.0, 0.25]), 'eps': 1e-13}
             try:
                 p = p_C20.run_check(f)
             except Exception as ex:
@@ -151,7 +154,7 @@ def is_known(f):
 def replay(payload):
     f = payload.get('failing_input')
     print(json.dumps(payload.get('broken'), indent=1)[:3000])
-    if f and f.get('kind') == 'implicit':
+    if f and f.get('kind') in ('implicit', 'implicit_end'):
         import p_C20
         p = p_C20.run_check(f)
         print('replayed failing input on the implementation:', 'STILL FAILS %r' % (p,) if p else 'passes now')
